@@ -35,7 +35,7 @@ from pysmt.exceptions import (SolverReturnedUnknownResultError,
 from pysmt.walkers import DagWalker
 from pysmt.solvers.smtlib import SmtLibBasicSolver, SmtLibIgnoreMixin
 from pysmt.solvers.eager import EagerModel
-from pysmt.decorators import catch_conversion_error
+from pysmt.decorators import clear_pending_pop, catch_conversion_error
 from pysmt.constants import Fraction, is_pysmt_integer, to_python_integer
 
 
@@ -103,6 +103,7 @@ class CVC4Solver(SmtLibBasicSolver):
         self.reset_assertions()
         self.converter = CVC4Converter(environment, cvc4_exprMgr=self.em)
 
+    @clear_pending_pop
     def reset_assertions(self):
         del self.cvc4
         # CVC4's SWIG interface is not acquiring ownership of the
@@ -115,6 +116,7 @@ class CVC4Solver(SmtLibBasicSolver):
     def declare_variable(self, var):
         raise NotImplementedError
 
+    @clear_pending_pop
     def add_assertion(self, formula, named=None):
         self._assert_is_boolean(formula)
         term = self.converter.convert(formula)
@@ -130,6 +132,7 @@ class CVC4Solver(SmtLibBasicSolver):
                 assignment[s] = v
         return EagerModel(assignment=assignment, environment=self.environment)
 
+    @clear_pending_pop
     def solve(self, assumptions=None):
         if assumptions is not None:
             conj_assumptions = self.environment.formula_manager.And(assumptions)
@@ -149,6 +152,7 @@ class CVC4Solver(SmtLibBasicSolver):
             return res_type == CVC4.Result.SAT
         return
 
+    @clear_pending_pop
     def push(self, levels=1):
         if not self.options.incremental:
             # The exceptions from CVC4 are not raised correctly
@@ -160,6 +164,7 @@ class CVC4Solver(SmtLibBasicSolver):
             self.cvc4.push()
         return
 
+    @clear_pending_pop
     def pop(self, levels=1):
         for _ in range(levels):
             self.cvc4.pop()
